@@ -43,7 +43,7 @@ void h_Len(void) { PathsT p; size_t *c, *a; GetPathCountAndCPathsArrayLen__p(p, 
 #define VF_MAXLEN 64
 size_t g_len;
 #define VF_WR(e) do { __CPROVER_assert((size_t)(v - result) < g_len, "write inside the stated array length"); *v++ = (e); } while (0)
-//@extract file=CPP/Clipper2Lib/include/clipper2/clipper.export.h func=CreateCPathsFromPathsT byval=paths rangefor=1 ifdef=BOUNDED
+//@extract file=CPP/Clipper2Lib/include/clipper2/clipper.export.h func=CreateCPathsFromPathsT byval=paths rangefor=1 vec=paths ifdef=BOUNDED
 //@sub /T\* result = new T\[array_len\], \* v = result;/T* result = malloc(VF_MAXLEN * sizeof(T)); T* v = result; g_len = array_len;/
 //@sub /\*\s*v\+\+ = ([^;]+);/VF_WR(\1);/ min=5
 //@sub /\)\.size\(\)/).size/ min=2
